@@ -91,6 +91,19 @@ def fenLoose (s : List Char) : Option APos :=
     | _, _, _, _ => none
   | _ => none
 
+/-- the en-passant field names a square of the rank behind a pawn of the side that just moved: rank 6
+when White is to move, rank 3 when Black is. A text whose en-passant square is on the other rank names
+a square no double step can have passed over: it is malformed and must be refused (a reader that
+"repairs" it would import a different position from the one written). -/
+def epRankOk (s : List Char) : Bool :=
+  match fields s with
+  | _ :: sd :: _ :: e :: _ =>
+    (match e, parseSide sd with
+     | [_, r], some .white => r = '6'
+     | [_, r], some .black => r = '3'
+     | _, _ => true)
+  | _ => true
+
 def allDigits (s : List Char) : Bool := !s.isEmpty && s.all Char.isDigit
 
 /-- The *strict* reading: a well-formed FEN. Four to six fields, no adjacent digits, castling
